@@ -1,8 +1,15 @@
 """Fresh-interpreter side of the C16 check:  python c16_worker.py <repo> <mode>   (job as JSON on stdin)
 
 mode parse: {"parser", "path", "kwargs"}      -> per-key digests of one parse in an interpreter that did nothing else
+mode history: {"events": [...]}                -> the observations of c16_canon.exec_events in an interpreter that did nothing else
 mode reg:   {"package", "names": [...]}        -> questions in order (`g:name` get, `l:name` load, `e:name` exists; a bare
                                                    name is a get): found flags + registered keys
+mode forkserver: (no stdin job) imports the third-party packages midgard uses and the package midgard.parsers itself (no
+                                                   plug-in module, nothing constructed or parsed), then serves jobs,
+                                                   one JSON per line on stdin: {"id", "kind": "parse"|"history", …}.  Every job
+                                                   runs in a forked child that imports midgard itself and exits; the answer is
+                                                   one `@@RESULT@@{…}` line.  kind parse: {"parser","path","kwargs"} -> digests;
+                                                   kind history: {"events": […]} -> the observations of c16_canon.exec_events
 mode plughist: {"questions": {package: [names]}} -> list + resolve every name of the three plug-in packages, ask
                                                    exists()/get()/load() about names that are not plug-ins, list + resolve again
 """
@@ -12,12 +19,79 @@ import sys
 repo, mode = sys.argv[1], sys.argv[2]
 sys.path.insert(0, str(__import__("pathlib").Path(__file__).resolve().parent.parent))
 sys.path.insert(0, repo)
+if mode == "forkserver":
+    import os
+    import signal
+
+    for m in ("numpy", "pandas", "scipy", "scipy.interpolate", "pint", "dateutil", "dateutil.parser", "pytz", "pycurl",
+              "colorama"):
+        try:
+            __import__(m)
+        except Exception:
+            pass
+    # the front door of the library is imported once (what every interpreter does before its first parse): the package
+    # midgard.parsers with the abstract parser classes; no plug-in module is loaded, no parser was ever constructed.
+    # (job["cold"]: the child is forked from a process that has not imported midgard at all - used for the cross-check)
+    if len(sys.argv) > 3 and sys.argv[3] == "cold":
+        assert not any(k == "midgard" or k.startswith("midgard.") for k in sys.modules)
+    else:
+        import warnings
+
+        warnings.simplefilter("ignore")
+        from midgard import parsers as _front_door  # noqa
+        from midgard.dev import plugins as _pl
+
+        assert not _pl._PLUGINS.get("midgard.parsers"), "a parser plug-in was loaded by importing the package"
+    sys.stdout.write("@@READY@@\n")
+    sys.stdout.flush()
+    for line in sys.stdin:
+        line = line.strip()
+        if not line:
+            continue
+        job = json.loads(line)
+        r, w = os.pipe()
+        pid = os.fork()
+        if pid == 0:  # the fresh process: midgard has never been imported here
+            try:
+                os.close(r)
+                dn = os.open(os.devnull, os.O_WRONLY)
+                os.dup2(dn, 1)
+                os.dup2(dn, 2)
+                signal.alarm(int(job.get("timeout", 240)))
+                from harness import c16_canon
+
+                if job["kind"] == "parse":
+                    res = c16_canon.run_parse(job["parser"], job["path"], job.get("kwargs"))[1]
+                else:
+                    res = [[i, list(k), d, what] for i, k, d, what in c16_canon.exec_events(job["events"])]
+                out = json.dumps({"id": job.get("id"), "result": res})
+            except BaseException as e:  # noqa
+                out = json.dumps({"id": job.get("id"), "failure": f"{type(e).__name__}: {e}"})
+            try:
+                with os.fdopen(w, "w") as f:
+                    f.write(out)
+            finally:
+                os._exit(0)
+        os.close(w)
+        with os.fdopen(r) as f:
+            out = f.read()
+        os.waitpid(pid, 0)
+        if not out:
+            out = json.dumps({"id": job.get("id"), "failure": "child died without an answer"})
+        sys.stdout.write("@@RESULT@@" + out + "\n")
+        sys.stdout.flush()
+    sys.exit(0)
 job = json.loads(sys.stdin.read())
 if mode == "parse":
     from harness import c16_canon
 
     _, dig = c16_canon.run_parse(job["parser"], job["path"], job.get("kwargs"))
     sys.stdout.write("\n@@RESULT@@" + json.dumps(dig) + "\n")
+elif mode == "history":
+    from harness import c16_canon
+
+    res = [[i, list(k), d, what] for i, k, d, what in c16_canon.exec_events(job["events"])]
+    sys.stdout.write("\n@@RESULT@@" + json.dumps(res) + "\n")
 elif mode == "reg":
     import contextlib
     import io
